@@ -15,6 +15,9 @@
 (* lines are printed as {"l","bad"}; lines without a verdict as            *)
 (* {"l","note"} with note "notGP" (outside the antecedent) or "empty" (no  *)
 (* triangle returned: vacuously inside the statement, counted).            *)
+(* "entry" (optional in the harness, not judged): which entry point made   *)
+(* the call - BowyerWatson or ConstrainedBowyerWatson without constraints; *)
+(* the statement is the same for both.                                     *)
 (***************************************************************************)
 EXTENDS Delaunay, TLC, Json
 
@@ -24,6 +27,13 @@ VARIABLES l
 vars == <<l>>
 
 Init == l = 1
+
+(* Coverage, not a verdict: the number of accepted triangles at the point  *)
+(* inserted LAST.  In an accepted (Delaunay) result that is the fan built  *)
+(* by the last insertion; when the point is interior to the hull the fan   *)
+(* of d triangles replaced a cavity of d - 2 invalidated triangles (a      *)
+(* polygon of d edges).  Printed as {"l","star"} for d >= 8.               *)
+StarOfLast(P, T) == Cardinality({k \in DOMAIN T : Len(P) \in Corners(T[k])})
 
 Step ==
     /\ l <= Len(Trace) /\ Trace[l].k = "dt"
@@ -36,7 +46,7 @@ Step ==
        IN IF bad # {} THEN PrintT(ToJson([l |-> l, bad |-> bad]))
           ELSE IF ~gp THEN PrintT(ToJson([l |-> l, note |-> "notGP"]))
           ELSE IF ln.tris = <<>> THEN PrintT(ToJson([l |-> l, note |-> "empty"]))
-          ELSE TRUE
+          ELSE LET d == StarOfLast(ln.pts, ln.tris) IN IF d >= 8 THEN PrintT(ToJson([l |-> l, star |-> d])) ELSE TRUE
     /\ l' = l + 1
 
 Next == Step
